@@ -207,7 +207,8 @@ fn float3<T: Tier>(rep: &mut Report) {
             let sum = [af[0] + bf[0], af[1] + bf[1], af[2] + bf[2]];
             let cond = 1.0 + 1.0 / norm_f(sum).max(1e-300);
             // the statement's allowance: closer than 1e-7 rad to (anti)parallel may be treated as such
-            let base_tol = K_TOL * T::U * 8.0 * cond;
+            // (condition factor times a few dozen roundings; the unchanged code needs less than a tenth of this)
+            let base_tol = K_TOL * T::U * cond;
             let tol_unit = base_tol + if from_par < 1e-7 { 2.0 * from_par + 1e-15 } else { 0.0 };
             let dist = |x: [T; 3], y: [f64; 3]| -> f64 { (0..3).map(|j| (x[j].f() - y[j]).powi(2)).sum::<f64>().sqrt() };
             let (ca, cb) = (mk_v3(a), mk_v3(b));
@@ -239,18 +240,19 @@ fn float3<T: Tier>(rep: &mut Report) {
                     let q = Quaternion::from_arc(src, dst, fbt);
                     let tol = base_tol * 4.0 + if from_par < 1e-4 { 2.0 * from_par + 1e-15 } else { 0.0 };
                     if tol >= 1e-3 {
+                        ctx.branch("from_arc-ill-conditioned-not-judged");
                         continue;
                     }
+                    ctx.branch("from_arc-judged");
                     let m2 = q.magnitude2().f();
                     ctx.check((m2 - 1.0).abs() <= K_TOL * T::U * 8.0, &key(&format!("from_arc/unit/{cls}")), || format!("|q|^2 = {m2}"));
                     let ra = v3(q.rotate_vector(ca));
                     ctx.check(dist(ra, unit3(bf)) <= tol + K_TOL * T::U * 8.0, &key(&format!("from_arc/maps-src-to-dst/{cls}")), || format!("q*a = {:?}, b = {:?} (lengths {l1}, {l2}, fallback {:?})", ra, bf, fb));
                     ctx.check(q.s.f() >= -tol, &key(&format!("from_arc/smaller-angle/{cls}")), || format!("scalar part {:?} < 0: rotation by more than a half turn", q.s));
                     if cls == "antiparallel" {
-                        if let Some(p) = fb {
-                            let qv = [q.v.x.f(), q.v.y.f(), q.v.z.f()];
-                            ctx.check(norm_f(cross_f(qv, p)) <= 1e-6 && q.s.f().abs() <= 1e-6, &key("from_arc/fallback-axis"), || format!("q = {:?}, fallback axis {:?}", q, p));
-                        }
+                        // "using the fallback axis (or any perpendicular one)": a half turn about an axis perpendicular to src
+                        let qv = [q.v.x.f(), q.v.y.f(), q.v.z.f()];
+                        ctx.check(dot_f(qv, unit3(af)).abs() <= 1e-6 && q.s.f().abs() <= 1e-6, &key("from_arc/antiparallel-axis"), || format!("q = {:?}: not a half turn about an axis perpendicular to src (fallback {:?})", q, fb));
                     }
                 }
             }
@@ -262,7 +264,9 @@ fn float3<T: Tier>(rep: &mut Report) {
 /// the fallback axis when one is given
 fn opposite3<T: Tier>(rep: &mut Report) {
     let us = alphabet::uv3(true);
-    let lens: [(i32, i32); 6] = [(0, 0), (-9, -9), (9, 9), (-9, 9), (3, -2), (-1, 0)];
+    // (the last two: lengths far below / above the statement's 1e-3..1e3 band - "of any length")
+    let (tiny, huge) = if T::NAME == "F" { (-30, 30) } else { (-250, 250) }; // fourth powers of the lengths still normal (8.5)
+    let lens: [(i32, i32); 8] = [(0, 0), (-9, -9), (9, 9), (-9, 9), (3, -2), (-1, 0), (tiny, tiny), (huge, huge - 2)];
     rep.cases(
         "opposite3",
         T::NAME,
@@ -287,6 +291,40 @@ fn opposite3<T: Tier>(rep: &mut Report) {
             ctx.check(dist(v3(q.rotate_vector(ca)), bf) <= tol, &key("between_vectors/Quaternion/opposite/maps-a-to-b"), || format!("r(a) = {:?}", q.rotate_vector(ca)));
             let r: Basis3<T> = Rotation::between_vectors(ca, cb);
             ctx.check(dist(v3(r.rotate_vector(ca)), bf) <= tol, &key("between_vectors/Basis3/opposite/maps-a-to-b"), || format!("r(a) = {:?}", r.rotate_vector(ca)));
+            // ... and it is a rotation (the point reflection -I also maps a to -a): orthonormal, determinant +1, a half turn
+            let rm = mk_m3(basis3_arr(r));
+            let g = m3(rm.transpose() * rm);
+            let dev = (0..3).flat_map(|c| (0..3).map(move |rr| (c, rr))).map(|(c, rr)| (g[c][rr].f() - if c == rr { 1.0 } else { 0.0 }).abs()).fold(0.0, f64::max);
+            let tr = basis3_arr(r);
+            let trace = tr[0][0].f() + tr[1][1].f() + tr[2][2].f();
+            ctx.check(dev <= tol && (rm.determinant().f() - 1.0).abs() <= tol && (trace + 1.0).abs() <= tol, &key("between_vectors/Basis3/opposite/half-turn"), || format!("{:?}: not a half turn (orthonormality defect {dev:e}, det {:?}, trace {trace})", tr, rm.determinant()));
+            // opposite up to the last bit: one component of b moved by one unit in the last place (six ways), and lengths that
+            // are not powers of two. Whether such a pair is treated as exactly opposite or not, the result is a rotation
+            // taking a onto b to within the distance of the pair from opposite (a few roundings) - not noise
+            for var in 0..8 {
+                let mut b2 = b;
+                let (l1, l2): (T, T) = if var < 6 {
+                    let k = var / 2;
+                    let bits = b2[k].f();
+                    let step = if var % 2 == 0 { 1.0 + 2.0 * T::U } else { 1.0 - 2.0 * T::U };
+                    b2[k] = num_traits::cast::<f64, T>(if bits == 0.0 { T::U * T::U } else { bits * step }).unwrap();
+                    (T::one(), T::one())
+                } else if var == 6 {
+                    (T::q(3, 1), T::q(5, 7))
+                } else {
+                    (T::q(1, 3), T::q(11, 10))
+                };
+                let (s2, d2) = (mk_v3(a.map(|c| c * l1)), mk_v3(b2.map(|c| c * l2)));
+                let (sf, df) = (v3(s2).map(|c| c.f()), v3(d2).map(|c| c.f()));
+                let noise = 1e-4;
+                if var < 6 {
+                    let q: Quaternion<T> = Rotation::between_vectors(s2, d2);
+                    ctx.check((q.magnitude2().f() - 1.0).abs() <= tol && dist(v3(q.rotate_vector(s2)), df) <= noise, &key("between_vectors/Quaternion/nearly-opposite"), || format!("between_vectors({:?}, {:?}) = {:?} maps a to {:?}", s2, d2, q, q.rotate_vector(s2)));
+                }
+                let q = Quaternion::from_arc(s2, d2, None);
+                let img = v3(q.rotate_vector(mk_v3(unit3(sf).map(|c| num_traits::cast::<f64, T>(c).unwrap()))));
+                ctx.check((q.magnitude2().f() - 1.0).abs() <= tol && dist(img, unit3(df)) <= noise, &key("from_arc/nearly-opposite"), || format!("from_arc({:?}, {:?}, None) = {:?} maps src^ to {:?}", s2, d2, q, img));
+            }
             let helper = if af[0].abs() < 0.9 { [1.0, 0.0, 0.0] } else { [0.0, 1.0, 0.0] };
             let perp = unit3(cross_f(af, helper));
             let ua = unit3(af);
@@ -301,10 +339,8 @@ fn opposite3<T: Tier>(rep: &mut Report) {
                     ctx.check((q.magnitude2().f() - 1.0).abs() <= tol, &key("from_arc/opposite/unit"), || format!("{what} = {:?}", q));
                     ctx.check(q.s.f().abs() <= tol, &key("from_arc/opposite/half-turn"), || format!("{what} = {:?}: scalar part is not 0", q));
                     ctx.check(dist(v3(q.rotate_vector(mk_v3(ua.map(|c| num_traits::cast::<f64, T>(c).unwrap())))), ua.map(|c| -c)) <= tol * 2.0, &key("from_arc/opposite/maps-src-to-dst"), || format!("{what} = {:?}", q));
-                    match fb {
-                        Some(p) => ctx.check(norm_f(cross_f(qv, p)) <= tol * 2.0, &key("from_arc/opposite/fallback-axis"), || format!("{what} = {:?}, fallback axis {:?}", q, p)),
-                        None => ctx.check(dot_f(qv, ua).abs() <= tol * 2.0, &key("from_arc/opposite/axis-perpendicular"), || format!("{what} = {:?}: axis not perpendicular to src", q)),
-                    };
+                    // with or without a fallback axis: "the fallback axis (or any perpendicular one)"
+                    ctx.check(dot_f(qv, ua).abs() <= tol * 2.0, &key("from_arc/opposite/axis-perpendicular"), || format!("{what} = {:?}: axis not perpendicular to src", q));
                 }
             }
         },
